@@ -8,6 +8,15 @@ HERE = os.path.dirname(os.path.dirname(os.path.abspath(__file__)))
 
 # id -> (technique, level text, level note, design ref)
 CHECKS = {
+    "C02": (
+        "explicit-state exploration of object graphs (same generator as C01) with a document-level oracle: reference-site table + generic UUID sweep + independent reachability walk; plus all ordered pairs of save/load histories in one process",
+        "Every configuration within 2 (quick) / 3 (thorough) deviations of three poles for each of the 8 collection types is saved; the JSON text is checked for unique ids per list, "
+        "every reference (37 explicit sites and every UUID-shaped string) defined, parents before children, and defined sets == objects reachable from the collection "
+        "(computed by reflection, independent of the adapters); a fresh load must resolve everything. The evidence counts, per reference site, the cases in which an object is referenced "
+        "from that site only (35 of 37 sites occur as sole site; matches.source/target cannot by the ClipEvaluation validator). 576 ordered save/load history pairs give a differential oracle from non-initial states.",
+        "Bounded as C01. Tags are identified by (label, value). Notes are inline objects by format design.",
+        "DESIGN.md 4/C02",
+    ),
     "C01": (
         "explicit-state exploration of object graphs (all configurations within k deviations of three poles, 8 collection types) driven through save/load cycle histories on the real io.save/io.load, invariant = structural equality + exact fixpoint",
         "For each of the 8 collection types every object-graph configuration within 2 (quick) / 3 (thorough) deviations of the minimal, skeleton and maximal poles "
